@@ -85,6 +85,45 @@ def slice_pc_strict(ob):
     return pcs, []
 
 
+def slice_pc_quant(ob, depth=2):
+    """Quantifier-directed slice: the quantified path facts / axioms that (within `depth` steps) share a function symbol
+       with the goal, plus the ground conjuncts that only speak about the function symbols collected that way.  The
+       prelude is then restricted to what these formulas can trigger.  (Dropping assumptions only weakens the query.)"""
+    gs = consts_and_funcs(ob.goal)
+    funs = set(x for x in gs if not x.startswith("c:"))
+    quant = [p for p in list(ob.pc) + list(ob.axioms) if z3.is_quantifier(p)]
+    chosen = []
+    chosen_ids = set()
+    for _ in range(depth):
+        new = set()
+        for qf in quant:
+            if qf.get_id() in chosen_ids:
+                continue
+            fs = set(x for x in consts_and_funcs(qf) if not x.startswith("c:"))
+            if fs & funs:
+                chosen.append(qf)
+                chosen_ids.add(qf.get_id())
+                new |= fs
+        if not new - funs:
+            funs |= new
+            break
+        funs |= new
+    syms = set(gs)
+    for qf in chosen:
+        syms |= consts_and_funcs(qf)
+    pcs = []
+    for p in ob.pc:
+        if z3.is_quantifier(p):
+            continue
+        ps = consts_and_funcs(p)
+        pf = set(x for x in ps if not x.startswith("c:"))
+        if pf <= funs and (ps & syms):
+            pcs.append(p)
+    pc_q = [qf for qf in chosen if any(qf.get_id() == p.get_id() for p in ob.pc)]
+    ax_q = [qf for qf in chosen if not any(qf.get_id() == p.get_id() for p in ob.pc)]
+    return pcs + pc_q, ax_q
+
+
 def slice_pc(ob):
     """Goal-directed slice of the path condition: conjuncts (transitively) sharing uninterpreted symbols with the goal.
        Dropping assumptions only weakens the query, so `unsat` of the slice is a valid discharge."""
@@ -154,7 +193,9 @@ def to_smt2(prelude, ob, sliced=False) -> str:
                 sg.add(p)
         sg.add(z3.Not(ob.goal))
         return sg.to_smt2()
-    if sliced == "strict":
+    if sliced == "quant":
+        pc, axioms = slice_pc_quant(ob)
+    elif sliced == "strict":
         pc, axioms = slice_pc_strict(ob)
     elif sliced:
         pc, axioms = slice_pc(ob)
@@ -279,7 +320,7 @@ def discharge(prelude: List[Any], obligations: List[Any], timeout: float = 10.0,
         work = []
         for idx, r, ob in items:
             text = to_smt2(prelude, ob, sliced=mode)
-            work.append((idx, r, ob, write(idx, text, {"ground": ".ground", "strict": ".strict", True: ".sliced", False: ""}[mode])))
+            work.append((idx, r, ob, write(idx, text, {"ground": ".ground", "strict": ".strict", "quant": ".quant", True: ".sliced", False: ""}[mode])))
 
         def job(item):
             idx, r, ob, path = item
@@ -313,6 +354,7 @@ def discharge(prelude: List[Any], obligations: List[Any], timeout: float = 10.0,
             direct = [it for it in remaining if has_string_terms(it[2])]
             remaining = [it for it in remaining if not has_string_terms(it[2])]
         remaining = run_round(remaining, "strict", min(timeout, 1.5), backends[:1], "(strict-slice)")
+        remaining = run_round(remaining, "quant", min(timeout, 2.5), backends[:1], "(quantifier-slice)")
         remaining = run_round(remaining, True, min(timeout, 4.0), [b for b in backends if b in ("z3", "cvc5")], "(sliced)")
     remaining = run_round(direct + remaining, False, timeout, backends, "")
     for idx, r, ob in open_items:
